@@ -259,6 +259,7 @@ func canonOfJSON(out []byte) string {
 
 // Exec runs one `heap` request (fields after "heap") and returns the canonical observation.
 func (s *Session) Exec(f []string) (obs string) {
+	noteOp(f)
 	defer func() {
 		if r := recover(); r != nil {
 			obs = fmt.Sprintf("panic %v", r)
